@@ -33,7 +33,7 @@ def Bracket(token: tokens.Bracket, state):
         return '[' if token.open else ']'
     if token.context == 'expression':
         return '{' if token.open else '}'
-    return '(' if token.open else '}'
+    return '(' if token.open else ')'
 
 
 def Operator(token: tokens.Operator, state):
